@@ -1,0 +1,351 @@
+//go:build verif
+
+package influxql
+
+// C19: required privileges. Generated table of per-statement contracts, written
+// from the property statement: every statement kind reports a non-empty list
+// without error; administrative statements require admin; database-scoped
+// statements name their database with the documented privilege.
+
+//@ func (*CreateUserStatement).RequiredPrivileges
+//@   props C19
+//@   safety C19 C13
+//@   frameprops C14 C17
+//@   modifies fresh
+//@   ensures result1 == nil && len(result0) >= 1 && result0[0].Admin
+
+//@ func (*DropUserStatement).RequiredPrivileges
+//@   props C19
+//@   safety C19 C13
+//@   frameprops C14 C17
+//@   modifies fresh
+//@   ensures result1 == nil && len(result0) >= 1 && result0[0].Admin
+
+//@ func (*GrantStatement).RequiredPrivileges
+//@   props C19
+//@   safety C19 C13
+//@   frameprops C14 C17
+//@   modifies fresh
+//@   ensures result1 == nil && len(result0) >= 1 && result0[0].Admin
+
+//@ func (*GrantAdminStatement).RequiredPrivileges
+//@   props C19
+//@   safety C19 C13
+//@   frameprops C14 C17
+//@   modifies fresh
+//@   ensures result1 == nil && len(result0) >= 1 && result0[0].Admin
+
+//@ func (*RevokeStatement).RequiredPrivileges
+//@   props C19
+//@   safety C19 C13
+//@   frameprops C14 C17
+//@   modifies fresh
+//@   ensures result1 == nil && len(result0) >= 1 && result0[0].Admin
+
+//@ func (*RevokeAdminStatement).RequiredPrivileges
+//@   props C19
+//@   safety C19 C13
+//@   frameprops C14 C17
+//@   modifies fresh
+//@   ensures result1 == nil && len(result0) >= 1 && result0[0].Admin
+
+//@ func (*SetPasswordUserStatement).RequiredPrivileges
+//@   props C19
+//@   safety C19 C13
+//@   frameprops C14 C17
+//@   modifies fresh
+//@   ensures result1 == nil && len(result0) >= 1 && result0[0].Admin
+
+//@ func (*CreateDatabaseStatement).RequiredPrivileges
+//@   props C19
+//@   safety C19 C13
+//@   frameprops C14 C17
+//@   modifies fresh
+//@   ensures result1 == nil && len(result0) >= 1 && result0[0].Admin
+
+//@ func (*DropDatabaseStatement).RequiredPrivileges
+//@   props C19
+//@   safety C19 C13
+//@   frameprops C14 C17
+//@   modifies fresh
+//@   ensures result1 == nil && len(result0) >= 1 && result0[0].Admin
+
+//@ func (*CreateRetentionPolicyStatement).RequiredPrivileges
+//@   props C19
+//@   safety C19 C13
+//@   frameprops C14 C17
+//@   modifies fresh
+//@   ensures result1 == nil && len(result0) >= 1 && result0[0].Admin
+
+//@ func (*AlterRetentionPolicyStatement).RequiredPrivileges
+//@   props C19
+//@   safety C19 C13
+//@   frameprops C14 C17
+//@   modifies fresh
+//@   ensures result1 == nil && len(result0) >= 1 && result0[0].Admin
+
+//@ func (*CreateSubscriptionStatement).RequiredPrivileges
+//@   props C19
+//@   safety C19 C13
+//@   frameprops C14 C17
+//@   modifies fresh
+//@   ensures result1 == nil && len(result0) >= 1 && result0[0].Admin
+
+//@ func (*DropSubscriptionStatement).RequiredPrivileges
+//@   props C19
+//@   safety C19 C13
+//@   frameprops C14 C17
+//@   modifies fresh
+//@   ensures result1 == nil && len(result0) >= 1 && result0[0].Admin
+
+//@ func (*DropShardStatement).RequiredPrivileges
+//@   props C19
+//@   safety C19 C13
+//@   frameprops C14 C17
+//@   modifies fresh
+//@   ensures result1 == nil && len(result0) >= 1 && result0[0].Admin
+
+//@ func (*DropMeasurementStatement).RequiredPrivileges
+//@   props C19
+//@   safety C19 C13
+//@   frameprops C14 C17
+//@   modifies fresh
+//@   ensures result1 == nil && len(result0) >= 1 && result0[0].Admin
+
+//@ func (*KillQueryStatement).RequiredPrivileges
+//@   props C19
+//@   safety C19 C13
+//@   frameprops C14 C17
+//@   modifies fresh
+//@   ensures result1 == nil && len(result0) >= 1 && result0[0].Admin
+
+//@ func (*ShowUsersStatement).RequiredPrivileges
+//@   props C19
+//@   safety C19 C13
+//@   frameprops C14 C17
+//@   modifies fresh
+//@   ensures result1 == nil && len(result0) >= 1 && result0[0].Admin
+
+//@ func (*ShowGrantsForUserStatement).RequiredPrivileges
+//@   props C19
+//@   safety C19 C13
+//@   frameprops C14 C17
+//@   modifies fresh
+//@   ensures result1 == nil && len(result0) >= 1 && result0[0].Admin
+
+//@ func (*ShowShardsStatement).RequiredPrivileges
+//@   props C19
+//@   safety C19 C13
+//@   frameprops C14 C17
+//@   modifies fresh
+//@   ensures result1 == nil && len(result0) >= 1 && result0[0].Admin
+
+//@ func (*ShowShardGroupsStatement).RequiredPrivileges
+//@   props C19
+//@   safety C19 C13
+//@   frameprops C14 C17
+//@   modifies fresh
+//@   ensures result1 == nil && len(result0) >= 1 && result0[0].Admin
+
+//@ func (*ShowStatsStatement).RequiredPrivileges
+//@   props C19
+//@   safety C19 C13
+//@   frameprops C14 C17
+//@   modifies fresh
+//@   ensures result1 == nil && len(result0) >= 1 && result0[0].Admin
+
+//@ func (*ShowDiagnosticsStatement).RequiredPrivileges
+//@   props C19
+//@   safety C19 C13
+//@   frameprops C14 C17
+//@   modifies fresh
+//@   ensures result1 == nil && len(result0) >= 1 && result0[0].Admin
+
+//@ func (*ShowSubscriptionsStatement).RequiredPrivileges
+//@   props C19
+//@   safety C19 C13
+//@   frameprops C14 C17
+//@   modifies fresh
+//@   ensures result1 == nil && len(result0) >= 1 && result0[0].Admin
+
+//@ func (*DropRetentionPolicyStatement).RequiredPrivileges
+//@   props C19
+//@   safety C19 C13
+//@   frameprops C14 C17
+//@   modifies fresh
+//@   requires s != nil
+//@   ensures result1 == nil && len(result0) == 1 && !result0[0].Admin && result0[0].Name == s.Database && result0[0].Privilege == WritePrivilege
+
+//@ func (*DropContinuousQueryStatement).RequiredPrivileges
+//@   props C19
+//@   safety C19 C13
+//@   frameprops C14 C17
+//@   modifies fresh
+//@   requires s != nil
+//@   ensures result1 == nil && len(result0) == 1 && !result0[0].Admin && result0[0].Name == s.Database && result0[0].Privilege == WritePrivilege
+
+//@ func (*ShowMeasurementsStatement).RequiredPrivileges
+//@   props C19
+//@   safety C19 C13
+//@   frameprops C14 C17
+//@   modifies fresh
+//@   requires s != nil
+//@   ensures result1 == nil && len(result0) == 1 && !result0[0].Admin && result0[0].Name == s.Database && result0[0].Privilege == ReadPrivilege
+
+//@ func (*ShowRetentionPoliciesStatement).RequiredPrivileges
+//@   props C19
+//@   safety C19 C13
+//@   frameprops C14 C17
+//@   modifies fresh
+//@   requires s != nil
+//@   ensures result1 == nil && len(result0) == 1 && !result0[0].Admin && result0[0].Name == s.Database && result0[0].Privilege == ReadPrivilege
+
+//@ func (*ShowSeriesStatement).RequiredPrivileges
+//@   props C19
+//@   safety C19 C13
+//@   frameprops C14 C17
+//@   modifies fresh
+//@   requires s != nil
+//@   ensures result1 == nil && len(result0) == 1 && !result0[0].Admin && result0[0].Name == s.Database && result0[0].Privilege == ReadPrivilege
+
+//@ func (*ShowTagKeysStatement).RequiredPrivileges
+//@   props C19
+//@   safety C19 C13
+//@   frameprops C14 C17
+//@   modifies fresh
+//@   requires s != nil
+//@   ensures result1 == nil && len(result0) == 1 && !result0[0].Admin && result0[0].Name == s.Database && result0[0].Privilege == ReadPrivilege
+
+//@ func (*ShowTagValuesStatement).RequiredPrivileges
+//@   props C19
+//@   safety C19 C13
+//@   frameprops C14 C17
+//@   modifies fresh
+//@   requires s != nil
+//@   ensures result1 == nil && len(result0) == 1 && !result0[0].Admin && result0[0].Name == s.Database && result0[0].Privilege == ReadPrivilege
+
+//@ func (*ShowFieldKeysStatement).RequiredPrivileges
+//@   props C19
+//@   safety C19 C13
+//@   frameprops C14 C17
+//@   modifies fresh
+//@   requires s != nil
+//@   ensures result1 == nil && len(result0) == 1 && !result0[0].Admin && result0[0].Name == s.Database && result0[0].Privilege == ReadPrivilege
+
+//@ func (*DeleteStatement).RequiredPrivileges
+//@   props C19
+//@   safety C19 C13
+//@   frameprops C14 C17
+//@   modifies fresh
+//@   ensures result1 == nil && len(result0) == 1 && !result0[0].Admin && result0[0].Name == "" && result0[0].Privilege == WritePrivilege
+
+//@ func (DropSeriesStatement).RequiredPrivileges
+//@   props C19
+//@   safety C19 C13
+//@   frameprops C14 C17
+//@   modifies fresh
+//@   ensures result1 == nil && len(result0) == 1 && !result0[0].Admin && result0[0].Name == "" && result0[0].Privilege == WritePrivilege
+
+//@ func (DeleteSeriesStatement).RequiredPrivileges
+//@   props C19
+//@   safety C19 C13
+//@   frameprops C14 C17
+//@   modifies fresh
+//@   ensures result1 == nil && len(result0) == 1 && !result0[0].Admin && result0[0].Name == "" && result0[0].Privilege == WritePrivilege
+
+//@ func (*ShowContinuousQueriesStatement).RequiredPrivileges
+//@   props C19
+//@   safety C19 C13
+//@   frameprops C14 C17
+//@   modifies fresh
+//@   ensures result1 == nil && len(result0) == 1 && !result0[0].Admin && result0[0].Name == "" && result0[0].Privilege == ReadPrivilege
+
+//@ func (*ShowQueriesStatement).RequiredPrivileges
+//@   props C19
+//@   safety C19 C13
+//@   frameprops C14 C17
+//@   modifies fresh
+//@   ensures result1 == nil && len(result0) == 1 && !result0[0].Admin && result0[0].Name == "" && result0[0].Privilege == ReadPrivilege
+
+//@ func (*ShowDatabasesStatement).RequiredPrivileges
+//@   props C19
+//@   safety C19 C13
+//@   frameprops C14 C17
+//@   modifies fresh
+//@   ensures result1 == nil && len(result0) == 1 && !result0[0].Admin && result0[0].Name == "" && result0[0].Privilege == NoPrivileges
+
+//@ func (*ShowSeriesCardinalityStatement).RequiredPrivileges
+//@   props C19
+//@   safety C19 C13
+//@   requires s != nil
+//@   ensures (!s.Exact || len(s.Sources) == 0) ==> result1 == nil && len(result0) == 1 && !result0[0].Admin && result0[0].Name == s.Database && result0[0].Privilege == ReadPrivilege
+//@   ensures result1 == nil ==> len(result0) >= 1
+
+//@ func (*ShowMeasurementCardinalityStatement).RequiredPrivileges
+//@   props C19
+//@   safety C19 C13
+//@   requires s != nil
+//@   ensures (!s.Exact || len(s.Sources) == 0) ==> result1 == nil && len(result0) == 1 && !result0[0].Admin && result0[0].Name == s.Database && result0[0].Privilege == ReadPrivilege
+//@   ensures result1 == nil ==> len(result0) >= 1
+
+//@ func (*ShowTagKeyCardinalityStatement).RequiredPrivileges
+//@   props C19
+//@   safety C19 C13
+//@   requires s != nil
+//@   ensures len(s.Sources) == 0 ==> result1 == nil && len(result0) == 1 && !result0[0].Admin && result0[0].Name == s.Database && result0[0].Privilege == ReadPrivilege
+//@   ensures result1 == nil ==> len(result0) >= 1
+
+//@ func (*ShowTagValuesCardinalityStatement).RequiredPrivileges
+//@   props C19
+//@   safety C19 C13
+//@   requires s != nil
+//@   ensures len(s.Sources) == 0 ==> result1 == nil && len(result0) == 1 && !result0[0].Admin && result0[0].Name == s.Database && result0[0].Privilege == ReadPrivilege
+//@   ensures result1 == nil ==> len(result0) >= 1
+
+//@ func (*ShowFieldKeyCardinalityStatement).RequiredPrivileges
+//@   props C19
+//@   safety C19 C13
+//@   requires s != nil
+//@   ensures len(s.Sources) == 0 ==> result1 == nil && len(result0) == 1 && !result0[0].Admin && result0[0].Name == s.Database && result0[0].Privilege == ReadPrivilege
+//@   ensures result1 == nil ==> len(result0) >= 1
+
+// SELECT: recursion over sources. Per iteration (step clauses): a measurement
+// appends exactly one read privilege on its database, a subquery appends exactly
+// the privileges of its statement, earlier entries are kept. Coverage of every
+// measurement at every depth is the induction over these steps.
+//@ func (Sources).RequiredPrivileges
+//@   props C19
+//@   safety C19 C13
+//@   frameprops C14 C17
+//@   modifies fresh
+//@   ensures fresh(result0)
+//@   ensures result1 == nil && len(a) >= 1 ==> len(result0) >= 1
+//@   loop 1 invariant -1 <= rangeindex && rangeindex < len(a) && (rangeindex >= 0 ==> len(ep) >= 1) && len(ep) >= 0 && fresh(ep)
+//@   loop 1 step istype(a[rangeindex], *Measurement) ==> len(ep) == old(len(ep)) + 1 && ep[len(ep)-1].Name == a[rangeindex].(*Measurement).Database && ep[len(ep)-1].Privilege == ReadPrivilege && !ep[len(ep)-1].Admin
+//@   loop 1 step istype(a[rangeindex], *SubQuery) ==> len(ep) == old(len(ep)) + len(privs) && forall(k, 0, len(privs), ep[old(len(ep))+k].Name == privs[k].Name && ep[old(len(ep))+k].Privilege == privs[k].Privilege && ep[old(len(ep))+k].Admin == privs[k].Admin)
+//@   loop 1 step forall(k, 0, old(len(ep)), ep[k].Name == old(ep[k].Name) && ep[k].Privilege == old(ep[k].Privilege) && ep[k].Admin == old(ep[k].Admin))
+//@   loop 1 step rangeindex == old(rangeindex) + 1
+//@   loop 1 decreases len(a) - rangeindex
+
+//@ func (*SelectStatement).RequiredPrivileges
+//@   props C19
+//@   safety C19 C13
+//@   frameprops C14 C17
+//@   modifies fresh
+//@   ensures fresh(result0)
+//@   requires s != nil
+//@   ensures result1 == nil && s.Target != nil ==> len(result0) >= 1 && result0[len(result0)-1].Name == s.Target.Measurement.Database && result0[len(result0)-1].Privilege == WritePrivilege && !result0[len(result0)-1].Admin
+//@   ensures result1 == nil && len(s.Sources) >= 1 ==> len(result0) >= 1
+
+//@ func (*ExplainStatement).RequiredPrivileges
+//@   props C19
+//@   safety C19 C13
+//@   requires e != nil
+//@   ensures result1 == nil && len(e.Statement.Sources) >= 1 ==> len(result0) >= 1
+
+//@ func (*CreateContinuousQueryStatement).RequiredPrivileges
+//@   props C19
+//@   safety C19 C13
+//@   requires s != nil
+//@   ensures result1 == nil && len(result0) >= 1 && result0[0].Name == s.Database && result0[0].Privilege == ReadPrivilege
+//@   ensures s.Source.Target.Measurement.Database != "" ==> len(result0) == 2 && result0[1].Name == s.Source.Target.Measurement.Database && result0[1].Privilege == WritePrivilege
